@@ -239,6 +239,15 @@ theorem ec_biscalar_mul_bounded_correct {a : F} (h2 : (2 : F) ≠ 0) (nbits tpe 
   biscalarMulBounded_ok h2 nbits tpe f hf k l hk hl curve (dblmulA24_ok h2 curve hA hC hflag) Pt Qt hoP hoQ P Q PQ
     hP hQ hD nP nQ nS nD
 
+/-- the effective scalar on small instances: `0 ↦ 2^8`, everything else unchanged; odd-ification of even scalars -/
+example : chainScalar 8 0 = 256 ∧ chainScalar 8 6 = 6 ∧ chainScalar 8 255 = 255 ∧ oddify 8 6 = 5 ∧ oddify 8 0 = 255 := by
+  decide
+
+/-- the recoding of `(k, l) = (13, 6)` with 5 bits: digits (least significant first), final `sigma[0]`, parity flags -/
+example : (recode 5 13 6).r = [(true, true), (true, true), (false, true), (false, true), (false, false)] ∧
+    (recode 5 13 6).sigma0 = false ∧ (recode 5 13 6).mevens = true ∧ (recode 5 13 6).bothOdd = false := by
+  decide
+
 /-- one applied iteration of the main loop on the group (building block of the theorem above) -/
 theorem xDBLMUL_step {a : F} (h2 : (2 : F) ≠ 0) {A24 : EcPoint F} (hA : 4 * A24.x = a + 2)
     (Pt Qt : (mont a).Point) (cs : CS) (st : DState F) (rr : Bool × Bool) (hG : G Pt Qt cs st) (hv : cvalid cs rr) :
